@@ -110,6 +110,16 @@ class World(object):
                 raise core.MachineryError("handshake did not complete in the rig")
             self.hs_bytes = len(rig.wire_out)
             rig.server = None          # from now on only collect the client's bytes; the strict peer reads them afterwards
+            if any(j.get("entry") == "coder" for js in jobs.values() for j in js):
+                # senders entering at the coder run its encoder outside any layer lock: let the scheduler preempt inside the encoding
+                writer = rig.coder.writer
+                for meth in ("writeAttributes", "writeString"):
+                    orig = getattr(writer, meth)
+
+                    def yielding(*a, orig=orig, meth=meth, **k):
+                        self.s.yield_point(("encode", meth))
+                        return orig(*a, **k)
+                    setattr(writer, meth, yielding)
             self.boom_installed = False
         except BaseException:
             self.close()
@@ -142,6 +152,11 @@ class World(object):
                 try:
                     if j["kind"] == "send":
                         layer = self.top if j["entry"] == "top" else self.mid
+                        if j["entry"] == "coder":
+                            # a sender that enters at the coder layer itself (YowStack.send on a stack that ends there, a layer calling down)
+                            self.rig.coder.send(self.stanza(t, n, j["fault"]))
+                            self.outcome[t].append("ok")
+                            continue
                         if j["fault"] == "logger":
                             orig = self.logger.send
 
@@ -359,8 +374,20 @@ def run(pid, extra=None):
                         r.violation("%s:%s" % (sig, fault_of(jobs)), "%s, random schedule: %s" % (cfg, desc), {"cfg": cfg, "jobs": jobs, "schedule_tail": tail})
         if pid == "C12":
             handshake_thread_failure(r)
+            write_raises_then_reconnect(r)
         if pid == "C11":
+            # senders entering at the coder layer (its encoder runs before the coder's own lock): random schedules with preemption inside the encoding
+            cj = {"a": [{"kind": "send", "entry": "coder", "fault": "none"}] * 2, "b": [{"kind": "send", "entry": "coder", "fault": "none"}] * 2,
+                  "c": [{"kind": "send", "entry": "top", "fault": "none"}]}
+            for k in range(60 if thorough else 20):
+                problems, tail = random_schedule(r, pid, cj, rng)
+                r.case(("coder-entry", "rand", k, rng.random()))
+                r.cov["traces_validated_against_impl"] += 1
+                for sig, desc in problems:
+                    if relevant(pid, sig):
+                        r.violation("%s:coder-entry" % sig, "senders entering at the coder layer, random schedule: %s" % desc, {"jobs": "coder-entry", "schedule_tail": tail})
             write_across_reconnect(r)
+            write_raises_then_reconnect(r)
     finally:
         roots.close()
     if extra is not None:
@@ -420,8 +447,16 @@ def write_across_reconnect(r):
             a = threading.Thread(target=lambda: rig.top.toLower(ProtocolTreeNode("iq", {"id": "inflight", "type": "get", "xmlns": "w:p"})))
             a.daemon = True
             a.start()
-            if not blocked.wait(60):
-                raise core.MachineryError("the sender never reached the socket write")
+            import time as _t
+            t_end = _t.time() + 60
+            while not blocked.is_set() and a.is_alive() and _t.time() < t_end:
+                _t.sleep(0.01)
+            if not blocked.is_set():
+                if a.is_alive():
+                    raise core.MachineryError("the sender never reached the socket write")
+                # the stack wrote the frame with fewer writes than this variant arms (e.g. header and payload in one write): not applicable
+                r.notes.setdefault("write_across_reconnect_skipped", []).append(variant)
+                continue
             d1.open = False
             def connection_lost():
                 # the network layer announces DISCONNECTED through the stack loop (a deferred callback): run it, as the loop would,
@@ -473,6 +508,96 @@ def write_across_reconnect(r):
         finally:
             release.set()
             threading.excepthook = old_hook
+            try:
+                rig.net.onDisconnected()
+            except Exception:
+                pass
+
+
+def write_raises_then_reconnect(r):
+    """A failure on the way down at the LOWEST site: the socket write raises (a dead connection noticed inside a write) for the first or
+    the second write of a frame.  The error is reported to the caller, no lock stays held, and after the connection is re-established the
+    new connection's byte stream is clean: its own prologue, then whole frames only (nothing of the failed frame is sent later)."""
+    import threading
+    from yowsup.layers import YowLayer
+    from yowsup.structs import ProtocolTreeNode
+    import yowsup.stacks.yowstack as ys
+    for variant in (1, 2):
+        r.case(("write-raises-then-reconnect", variant))
+        r.cov["traces_validated_against_impl"] += 1
+        World.N += 1
+
+        class Top(YowLayer):
+            def __init__(top):
+                YowLayer.__init__(top)
+                top.up = []
+
+            def receive(top, node):
+                top.up.append(node)
+        srv1 = NoiseServer()
+        rig = transportkit.TransportRig(e2ekit.make_profile("49157707%05d" % World.N), srv1, top_cls=Top, reply_inline=True)
+        try:
+            if rig.login(timeout=90.0) != "transport":
+                raise core.MachineryError("first login of the rig failed")
+            d1 = rig.dispatchers[-1]
+            orig_send = d1.sendData
+            count = {"n": 0}
+
+            def failing_send(data, orig_send=orig_send):
+                count["n"] += 1
+                if count["n"] == variant:
+                    raise IOError(110, "Connection timed out")
+                if count["n"] < variant:
+                    orig_send(data)
+            d1.sendData = failing_send
+            problems = []
+            raised = None
+            try:
+                rig.top.toLower(ProtocolTreeNode("iq", {"id": "doomed", "type": "get", "xmlns": "w:p"}))
+            except Exception as e:
+                raised = e
+            if count["n"] < variant:
+                r.notes.setdefault("write_raises_skipped", []).append(variant)     # fewer writes per frame than this variant arms
+                continue
+            if raised is None:
+                problems.append(("down:error-swallowed", "the failing socket write was not reported to the sender"))
+            held = [getattr(l.lock, "name", i) for i, l in ((i, rig.stack.getLayer(i)) for i in range(1, 5)) if l.lock.locked()]
+            tl = getattr(rig.noise, "_transport_lock", None)
+            if held or (tl is not None and tl.locked()):
+                problems.append(("lock-leak", "locks still held after the failing write: %s transport=%s" % (held, tl is not None and tl.locked())))
+            else:
+                # the dead connection is noticed and a new one is made
+                d1.open = False
+                rig.net.onDisconnected()
+                q = ys.YowStack._YowStack__detachedQueue
+                while q.qsize():
+                    q.get(False)()
+                srv2 = NoiseServer(static=srv1.static)
+                rig.server = srv2
+                try:
+                    state = rig.login(timeout=90.0)
+                    rig.top.toLower(ProtocolTreeNode("iq", {"id": "fresh", "type": "get", "xmlns": "w:p"}))
+                except ProtocolError as e:
+                    problems.append(("wire:foreign-bytes", "the new connection's server cannot follow the byte stream: %s" % e))
+                    state = None
+                except Exception as e:
+                    problems.append(("down:follow-up-raises", "login / send on the new connection raised %r" % (e,)))
+                    state = None
+                if state is not None and state != "transport":
+                    problems.append(("wire:login-failed", "the login after the reconnect ended in state %r" % state))
+                elif state == "transport":
+                    from yowsup.layers.coder.decoder import ReadDecoder
+                    from yowsup.layers.coder.tokendictionary import TokenDictionary
+                    try:
+                        ids = [ReadDecoder(TokenDictionary()).getProtocolTreeNode(bytearray(x))["id"] for x in srv2.received]
+                    except Exception as e:
+                        ids = ["undecodable: %r" % (e,)]
+                    if ids != ["fresh"]:
+                        problems.append(("wire:foreign-frames", "the new connection carried %s, only 'fresh' was sent on it" % ids))
+            for sig, desc in problems:
+                r.violation("%s:write-raises" % sig, "socket write #%d of a frame raises, then the connection is re-established: %s" % (variant, desc),
+                            {"scenario": "write-raises-then-reconnect", "variant": variant})
+        finally:
             try:
                 rig.net.onDisconnected()
             except Exception:
